@@ -4,9 +4,10 @@ CONSTANTS
   Sub = {"B", "C", "D"}
   Res = {"p1", "p2", "a1"}
   TopRes = {"p1", "p2", "a1"}
-  Roa <- GenRoa
+  Roa <- GenRoaAspa
+  AspaDefs <- GenAspa
   ParentOf <- GenChain
-  Ops = {"res", "roa", "roll", "refresh", "maintain"}
+  Ops = {"res", "roa", "aspa", "roll", "refresh", "maintain"}
   Depth = 30
   MaxApiStreak = 2
   MaxDestr = 1
